@@ -6,7 +6,7 @@ record what was run in meta.json (confirmed_by_main)."""
 import json, os, shutil, subprocess, sys, time
 prop, mk = sys.argv[1], sys.argv[2]
 src = "/tmp/seeded/%s/%s" % (prop, mk)
-wt = "/tmp/wt/%s" % prop
+wt = os.environ.get("SEED_WTROOT", "/tmp/wt") + "/%s" % prop
 env = dict(os.environ, GOFLAGS="-mod=mod", GOPROXY="off")
 log = []
 
